@@ -30,14 +30,16 @@ def run(ctx):
     r2 = common.correspond(ctx, ["hist", "--histories", n, "--suites", "1,2,3" if ctx.tier == "quick" else "1,2,3,4,5,6,7", "--providers", "mixed",
                                  "--focus", "C13"], "tree", "hist-tree")
     th_rows = r2["kinds"].get("th", 0) + r2["kinds"].get("mtag", 0)
-    ctx.cov["transcript_rows"] = {"th": r2["kinds"].get("th", 0), "mtag": r2["kinds"].get("mtag", 0), "stream_rows": r2["rows"], "differences": r2["ndiff"]}
+    ctx.cov["transcript_rows"] = {"th": r2["kinds"].get("th", 0), "thp": r2["kinds"].get("thp", 0), "mtag": r2["kinds"].get("mtag", 0),
+                                  "eks (epoch secrets and confirmation tag of real path-less commits)": r2["kinds"].get("eks", 0),
+                                  "stream_rows": r2["rows"], "differences": r2["ndiff"]}
     ctx.cov["traces_validated_against_impl"] = r["rows"] + r2["rows"]
     ctx.cov["evaluations"] = r["rows"] + r2["rows"]
     ctx.cov["correspondence_differences"] = r["ndiff"] + r2["ndiff"]
     if not r2["ok"]:
         ctx.violation("correspondence", "history harness or model driver failed", {"log": r2["out"][-1500:]}, no_input=True)
     if r2["ndiff"]:
-        ctx.violation("correspondence", "a transcript hash / membership tag (or a tree-layer row) of a real history differs from the model's recomputation from the message bytes",
+        ctx.violation("correspondence", "a transcript hash / membership tag / epoch secret (or a tree-layer row) of a real history differs from the model's recomputation from the message bytes",
                       {"first_differing_rows": r2["diffs"], "total": r2["ndiff"]})
     if th_rows == 0:
         ctx.violation("correspondence", "no transcript rows were produced (no public handshake message in the histories)", {}, no_input=True)
@@ -51,7 +53,10 @@ def run(ctx):
         ctx.violation("proof", "theorem(s) of MlsVerif.Props.C13 no longer check", ctx.proof_failure, no_input=not r["ndiff"])
     ctx.assumptions += ["providers reject a PRK shorter than Nh, an empty IKM and an output length of 0 (OpenSSL) before deriving; generators stay inside that domain",
                         "SHA-2/HMAC/HKDF reference written in Lean (checked against published vectors and python hashlib), not proved",
-                        "confirmed / interim transcript hashes and membership tags are recomputed from the raw bytes of real public handshake messages (decoded by the generated codec model); encrypted handshake messages are covered at group level by the C01 agreement oracle only"]
+                        "confirmed / interim transcript hashes and membership tags are recomputed from the raw bytes of real public handshake messages (decoded by the generated codec model), "
+                        "for encrypted commits from the content a receiver decrypts (`thp`); the epoch secrets and the confirmation tag of every real commit WITHOUT an update path are recomputed "
+                        "by KS.epochOfCommit (`eks` rows: previous init secret, zero commit secret, new context, the commit's PSKs in message order); the commit secret of a path is not observable, "
+                        "the external key pair (DeriveKeyPair of the external secret) is not recomputed"]
     return ctx.finish("proof")
 
 
